@@ -9,7 +9,8 @@ props=${@:-$prop}
 wt=/tmp/mwt/$(basename $d)-$$
 mkdir -p /tmp/mwt
 git -C /repo worktree add -q --detach $wt HEAD || exit 1
-trap 'git -C /repo worktree remove --force '$wt' 2>/dev/null; rm -rf ~/.cache/rv/alt-*/run-* 2>/dev/null' EXIT
+alt=$HOME/.cache/rv/alt-$(python3 -c "import hashlib,sys;print(hashlib.sha1(sys.argv[1].encode()).hexdigest()[:10])" $wt)
+trap 'git -C /repo worktree remove --force '$wt' 2>/dev/null; rm -rf '$alt' 2>/dev/null' EXIT
 git -C $wt apply $d/patch.diff || { echo "APPLY-FAILED $name"; exit 1; }
 cd /verif
 for p in $props; do
